@@ -300,6 +300,39 @@ func runFrames(raw json.RawMessage, seed int64, rec *Rec) {
 				out = append(out, table.ID(res.Msg.Value))
 			}
 			rec.Add(E("done", "ok", err == nil, "code", codeOf(err), "out", out, "alloc_kb", allocKB()))
+		} else if s.Bidi {
+			// a bidi stream hands out the connection's results unlatched: after the end of the stream (clean or
+			// not) two further Receives must keep reporting an error and a Send must not succeed (C14)
+			stream := client.CallBidiStream(mctx)
+			_ = stream.Send(&BV{Value: []byte{1}})
+			_ = stream.CloseRequest()
+			var err error
+			for {
+				m, rerr := stream.Receive()
+				if rerr != nil {
+					if !isEOF(rerr) {
+						err = rerr
+					}
+					break
+				}
+				id := table.ID(m.Value)
+				out = append(out, id)
+				rec.Add(E("recv", "id", id))
+			}
+			after := []int{}
+			for i := 0; i < 2; i++ {
+				m, rerr := stream.Receive()
+				switch {
+				case rerr == nil:
+					after = append(after, table.ID(m.Value))
+				case isEOF(rerr):
+					after = append(after, -100)
+				default:
+					after = append(after, -codeOf(rerr))
+				}
+			}
+			rec.Add(E("done", "ok", err == nil, "code", codeOf(err), "out", out, "alloc_kb", allocKB(), "after", after))
+			_ = stream.CloseResponse()
 		} else {
 			stream, err := client.CallServerStream(mctx, connect.NewRequest(&BV{Value: []byte{1}}))
 			if err != nil {
